@@ -185,7 +185,7 @@ func (r *c10run) at(short string, args []any) {
 			return
 		}
 		r.gateAt(a, short, c10probe(args))
-	case "matrix":
+	case "matrix", "free":
 		if strings.HasSuffix(short, ".done") {
 			r.doneOnce[short].Do(func() { close(r.done[short]) })
 			return
@@ -348,6 +348,11 @@ func (r *c10run) exec(op *Sexp) string {
 		return "closed"
 	case "wait":
 		err := r.svc.Wait()
+		if _, live := err.(*ers.Stack); live && r.mode != "sched" && r.out[3] == "panic" {
+			// Resolve hands out the collector's live stack (D26, a C13 matter): do not inspect it while the
+			// handler goroutine may still be pushing its recovered panic
+			r.waitCh(r.done["handler.done"], "handler.done")
+		}
 		if errors.Is(err, srv.ErrServiceNotStarted) {
 			return "notstarted"
 		}
